@@ -572,7 +572,9 @@ def run_check(prop: str, sim_name: str, tier: str, cfg: dict, meta: dict) -> int
         harness_msgs.append("%d harness errors, first: seed=%s %s" % (len(harness_errors), harness_errors[0]["seed"], (harness_errors[0]["error"] or "")[-1500:]))
     if n_exec == 0:
         harness_msgs.append("no run executed")
-    elif inconclusive > 0.2 * (n_exec + inconclusive):
+    elif inconclusive > 0.6 * (n_exec + inconclusive):
+        # wall-clock timeouts depend on machine load, never on the code under test alone: only an
+        # extreme rate makes the batch meaningless
         harness_msgs.append("inconclusive rate too high: %d of %d" % (inconclusive, n_exec + inconclusive))
     if unknown and not all(replay_ok.values()):
         harness_msgs.append("a replay file did not reproduce its violation: %s" % {k: v for k, v in replay_ok.items() if not v})
